@@ -153,6 +153,7 @@ impl Space for RoundTrip {
         }
         let o = rn.run(&args);
         r.count("processes", 1);
+        r.count("tool_ms_create", o.ms);
         let apath = rn.cwd.join("a.mpq");
         if !o.ok() {
             r.err_return = true;
@@ -249,6 +250,7 @@ impl Space for RoundTrip {
                 let o = rn.run(&args);
                 r.count("processes", 1);
                 r.count("extractions", 1);
+                r.count("tool_ms_extract", o.ms);
                 let ctx = format!("threads={t:?} preserve={preserve}");
                 if !oc.contains(o.class()) {
                     oc.push_str(o.class());
@@ -369,7 +371,7 @@ fn main() {
         ntpl = subcmd::templates().len(),
         dmg = subcmd::damage_names(tier).join(", "),
     );
-    c.assume(format!("tool under test: {} (dev profile, built from /repo's working tree by ./check); every process runs with cwd, HOME, XDG_* and TMPDIR inside a vcore::Scratch directory, a 60 s timeout, RLIMIT_AS 8 GiB, MALLOC_ARENA_MAX=2", cli.display()));
+    c.assume(format!("tool under test: {} (dev profile, built from /repo's working tree by ./check); every process runs with cwd, HOME, XDG_* and TMPDIR inside a vcore::Scratch directory, a per-process timeout (20 s in subcmd, 60 s in roundtrip), RLIMIT_AS 8 GiB, MALLOC_ARENA_MAX=2", cli.display()));
     c.assume("the library's view (list(), get_info(), parse, validate) is taken in-process from the same /repo tree and only on bytes the tool itself exited 0 on; library correctness is the subject of C01-C18, here only agreement between tool and library is judged");
     c.assume("a non-zero exit where success was possible is a refusal (counted in error_returns), never a violation; timeouts and deaths by signal count as non-zero exits");
     c.run_space("roundtrip", "");
